@@ -1,4 +1,5 @@
 import Ledger.Proofs.SchedLocks
+import Ledger.Proofs.SchedChain
 import Ledger.Proofs.SchedHandles
 import Ledger.Proofs.SchedWitnesses
 
@@ -38,6 +39,48 @@ example : AdvWf { adv := [{ key := logKey 1, sid := 1, xact := true }] } ∧
   intro a ha b hb _
   simp only [List.mem_singleton] at ha hb
   rw [ha, hb]
+
+/-- `chain_linear_any_schedule`: for every schedule, in every world reached from one satisfying the
+    discipline (`GInv`) and the chain invariant, the log rows of the ledger — committed or in progress,
+    in insertion order — have strictly increasing ids, each chains from the row before it (the first
+    from nothing), the committed ones alone do too, and no two rows have the same predecessor. -/
+theorem chain_linear_any_schedule (l₀ : Nat) (σ : Schedule) (w₀ : World)
+    (hg : GInv ⟨logKey l₀, l₀, true⟩ w₀) (hc : ChainInv ⟨logKey l₀, l₀, true⟩ w₀) :
+    let L := (run σ w₀).logs.filter (fun e => e.l = l₀)
+    L.Pairwise (fun a b => a.id < b.id) ∧ ChainedFrom 0 L ∧ ChainedFrom 0 (L.filter (·.com)) ∧
+    L.Pairwise (fun a b => a.prev ≠ b.prev) := by
+  intro L
+  have h := (chainInv_run ⟨logKey l₀, l₀, true⟩ rfl σ w₀ hg hc).2
+  refine ⟨h.inc, h.chain, ?_, ?_⟩
+  · have : L.filter (·.com) = L.takeWhile (·.com) := filter_eq_takeWhile_of_prefix L _ h.pre
+    rw [this]
+    exact chainedFrom_takeWhile _ 0 L h.chain
+  · exact (prevs_increasing 0 L h.chain h.inc h.pos).imp (fun hlt => Nat.ne_of_lt hlt)
+
+/-- the real create path on a ledger in use follows the discipline, for every answer of every statement -/
+theorem writers_are_safe (l₀ : Nat) (q : Send) (hq : q.l = l₀ → q.sync = true) (m : Mon) :
+    Safe ⟨logKey l₀, l₀, true⟩ m (sendProg q true) := by
+  apply safe_sendProg_inUse
+  intro hl
+  exact ⟨hq hl, by rw [hl]⟩
+
+/-- non-vacuity: two concurrent SYNC writers on a ledger in use satisfy the hypotheses -/
+example : GInv ⟨logKey 1, 1, true⟩ exWorld ∧ ChainInv ⟨logKey 1, 1, true⟩ exWorld := by
+  constructor
+  · refine ⟨(by intro a ha; cases ha), fun s => ⟨{}, ⟨?_, ?_, ?_, ?_, ?_, ?_⟩, ?_⟩⟩
+    · intro h; cases h
+    · intro h; cases h
+    · intro h; cases h
+    · intro _ e he; cases he
+    · intro h; cases h
+    · intro h; cases h
+    · simp only [exWorld]
+      split
+      · exact writers_are_safe 1 exA (fun _ => rfl) {}
+      · split
+        · exact writers_are_safe 1 exB (fun _ => rfl) {}
+        · trivial
+  · refine ⟨List.Pairwise.nil, ?_, trivial, List.Pairwise.nil, List.Pairwise.nil, ?_, ?_, ?_⟩ <;> intro e he <;> cases he
 
 /-- a second session's lock request waits while the key is held -/
 theorem advisory_lock_waits (w : World) (s t : Sid) (l : Nat)
